@@ -206,25 +206,25 @@ HEnd(hh, n) ==                                         \* handle_endtag
     IF hh.skip > 0 /\ (n = hh.tag \/ Dev("AnyEndTagDecrements"))
     THEN [hh EXCEPT !.skip = @ - 1] ELSE hh
 
-Feed(t) ==                                             \* HTMLParser.goahead on one more token
-    LET i == Len(toks) + 1 IN
+\* HTMLParser.goahead on one more token (position i): parser state p = [cdata, h, out] -> new state
+AlgStep(p, t, i) ==
+    IF p.cdata # "" THEN                               \* CDATA mode: everything but </cdata> is data
+        IF t.k = "E" /\ t.n = p.cdata
+        THEN [p EXCEPT !.h = HEnd(p.h, t.n), !.cdata = ""]
+        ELSE IF IsWord(t) /\ p.h.skip = 0 THEN [p EXCEPT !.out = @ \cup {i}] ELSE p
+    ELSE IF IsText(t) THEN                             \* handle_data
+        IF p.h.skip = 0 THEN [p EXCEPT !.out = @ \cup {i}] ELSE p
+    ELSE IF t.k \in {"C", "D"} THEN p                  \* handle_comment / unknown_decl: dropped
+    ELSE IF t.k = "S" THEN                             \* handle_starttag, then set_cdata_mode
+        [p EXCEPT !.h = HStart(p.h, t.n), !.cdata = IF t.n \in RawText THEN t.n ELSE ""]
+    ELSE IF t.k = "X" THEN                             \* handle_startendtag = start + end, no CDATA mode
+        [p EXCEPT !.h = HEnd(HStart(p.h, t.n), t.n)]
+    ELSE [p EXCEPT !.h = HEnd(p.h, t.n)]               \* handle_endtag
+
+Feed(t) ==
+    LET q == AlgStep([cdata |-> cdata, h |-> h, out |-> out], t, Len(toks) + 1) IN
     /\ toks' = Append(toks, t)
-    /\ IF cdata # "" THEN                              \* CDATA mode: everything but </cdata> is data
-           IF t.k = "E" /\ t.n = cdata
-           THEN h' = HEnd(h, t.n) /\ cdata' = "" /\ out' = out
-           ELSE /\ UNCHANGED <<h, cdata>>
-                /\ out' = IF IsWord(t) /\ h.skip = 0 THEN out \cup {i} ELSE out
-       ELSE IF IsText(t) THEN                          \* handle_data
-           /\ UNCHANGED <<h, cdata>>
-           /\ out' = IF h.skip = 0 THEN out \cup {i} ELSE out
-       ELSE IF t.k \in {"C", "D"} THEN UNCHANGED <<h, cdata, out>>   \* handle_comment / unknown_decl: dropped
-       ELSE IF t.k = "S" THEN
-           /\ h' = HStart(h, t.n)
-           /\ cdata' = IF t.n \in RawText THEN t.n ELSE ""           \* set_cdata_mode
-           /\ out' = out
-       ELSE IF t.k = "X" THEN                          \* handle_startendtag = start + end, no CDATA mode
-           h' = HEnd(HStart(h, t.n), t.n) /\ UNCHANGED <<cdata, out>>
-       ELSE h' = HEnd(h, t.n) /\ UNCHANGED <<cdata, out>>
+    /\ cdata' = q.cdata /\ h' = q.h /\ out' = q.out
 
 Init == toks = <<>> /\ cdata = "" /\ h = H0 /\ out = {}
 Next == \E t \in Alphabet : Len(toks) < MaxLen /\ Feed(t)
@@ -236,10 +236,16 @@ TailRun(s, i) == IF i >= 1 /\ IsText(s[i]) THEN {i} \cup TailRun(s, i - 1) ELSE 
 
 \* what has reached the output when the input ends here.  eof = TRUE: the token string is flush
 \* with the end of the input (nothing, not even a newline, follows it).
-FinalOut(eof) ==
-    IF eof /\ Dev("NoClose") /\ cdata = "" /\ toks # <<>> /\ Last(toks).k = "A"
-    THEN out \ TailRun(toks, Len(toks))                \* goahead(0) waits for the rest of "&D"; nobody calls close()
-    ELSE out
+FinalOutOf(s, p, eof) ==
+    IF eof /\ Dev("NoClose") /\ p.cdata = "" /\ s # <<>> /\ Last(s).k = "A"
+    THEN p.out \ TailRun(s, Len(s))                    \* goahead(0) waits for the rest of "&D"; nobody calls close()
+    ELSE p.out
+FinalOut(eof) == FinalOutOf(toks, [cdata |-> cdata, h |-> h, out |-> out], eof)
+
+\* the whole run as a function of the token string (used by HtmlSkipTrace's model-agreement mode)
+RECURSIVE AlgScan(_, _, _)
+AlgScan(s, i, p) == IF i > Len(s) THEN p ELSE AlgScan(s, i + 1, AlgStep(p, s[i], i))
+AlgOut(s, eof) == FinalOutOf(s, AlgScan(s, 1, [cdata |-> "", h |-> H0, out |-> {}]), eof)
 
 Inv_AlgMeetsVisible == \A eof \in BOOLEAN : Conforms(Class(toks), FinalOut(eof))
 TypeOK == /\ WellFormed(toks) /\ h.skip \in 0..MaxLen /\ out \subseteq 1..Len(toks)
